@@ -153,7 +153,15 @@ def is_rank(x, n):
 
 
 def oracle(n, tracker):
-    """list of violated clauses (strings) for worker count n >= 1"""
+    """list of violated clauses (strings) for worker count n >= 1.  The link maps must be a function of n alone: the
+    same tracker object is asked twice in a row (a tracker serves many jobs), both answers are checked"""
+    first = oracle_once(n, tracker)
+    if first:
+        return first
+    return ['second call on the same tracker object: ' + b for b in oracle_once(n, tracker)]
+
+
+def oracle_once(n, tracker):
     bad = []
     try:
         res = tracker.get_link_map(n)
